@@ -852,10 +852,15 @@ def _validation(ck: Checker, prog: Program):
     t = prog.func("hvsr_traditional.HvsrTraditional.__init__")
     tleaves = PathTable(prog, t.module, call_hook=pkg_call_hook(prog, t.module, prog.cls("HvsrCurve"), self_name="HvsrCurve"), unroll=True, opaque=("update_peaks_bounded",)).leaves(t.node.body)
     R = lambda n: sp.Symbol(n, real=True)   # noqa: E731
-    CK = sp.Function("_check_input")
     HC = R("HvsrCurve")
-    want_f = [CK(HC, R("frequency"), sp.Symbol("'frequency'")), CK(R("frequency"), sp.Symbol("'frequency'"))]
-    want_a = [sp.Function("atleast_2d")(CK(HC, R("amplitude"), sp.Symbol("'amplitude'"))), sp.Function("atleast_2d")(CK(R("amplitude"), sp.Symbol("'amplitude'")))]
+    # the validation routine under any of its names (the method, or the module function the class binds under that name)
+    ck_names = ["_check_input"] + sorted({g.name for g in prog.funcs.values() if g.node is f.node and g.name != "_check_input"}
+                                         | {g.node.name for g in [f] if g.node.name != "_check_input"})
+    want_f, want_a = [], []
+    for nm_ in ck_names:
+        CK = sp.Function(nm_)
+        want_f += [CK(HC, R("frequency"), sp.Symbol("'frequency'")), CK(R("frequency"), sp.Symbol("'frequency'"))]
+        want_a += [sp.Function("atleast_2d")(CK(HC, R("amplitude"), sp.Symbol("'amplitude'"))), sp.Function("atleast_2d")(CK(R("amplitude"), sp.Symbol("'amplitude'")))]
     stored_ok = bool(tleaves)
     any_normal = False
     shape_refusal = False
